@@ -20,10 +20,12 @@ func init() {
 			Explanation: "Decides lock discipline on the state shared between API readers and block execution (the deliver state is the object the read-only CheckState wraps): " +
 				"(map) every access (lookup, range, update, delete) to a map-typed field of a state-module struct that is written by code reachable from the ABCI entry points and touched by code reachable from the API service / CheckTx holds the field's guarding mutex — a concurrent map access is a fatal runtime error, not a data race one can survive; guard relations are frozen in a table confirmed by reading (found and repaired: SwapV2.swapPools iterating s.pairs unlocked); " +
 				"(reentrant) no function acquires (R)Lock on a mutex it already holds, directly or through a callee on the same object — RWMutex read locks are not reentrant and deadlock when a writer queues in between (found and repaired: Accounts.GetLockStakeUntilBlock); " +
-				"(pair) every Lock/RLock is released on every path to a return (explicitly or by defer); (pure) API-reachable code calls no state mutator. " +
+				"(pair) every Lock/RLock is released on every path to a return (explicitly or by defer); (pure) API-reachable code calls no state mutator; " +
+				"(recheck) when an insert into a guarded map is decided by a lookup of the same key in a function that both API readers and block execution can run, that lookup holds the write lock that is still held at the insert — otherwise both threads miss, each loads its own object and the later insert orphans the object block execution is updating (found and repaired in the lazy loaders of seven state modules); " +
+				"(copyout) API code performs no in-place big.Int arithmetic on an amount that is the state's own object: read methods that hand out stored amounts without copying are inventoried (direct results and fields of composites they build) and every in-place operation in api/ packages is traced back through calls, slice elements, struct copies and local maps. " +
 				"NOT decided: races on non-map fields, lock-order cycles between different mutexes, the order-book lists shared between a pair and its reverse view (disjunctive guards), third-party stores.",
 			Assumptions: stdAssumptions,
-			Rules:       []string{"C25.map", "C25.reentrant", "C25.pair", "C25.pure"},
+			Rules:       []string{"C25.map", "C25.reentrant", "C25.pair", "C25.pure", "C25.copyout", "C25.recheck"},
 		},
 		Run: runC25,
 	})
@@ -564,6 +566,8 @@ func runC25(c *core.Ctx) {
 			}
 		}
 	}
+	checkCopyOut(c, "C25.copyout", readers)
+	checkRecheck(c, "C25.recheck", locks, readers, cg.Reachable(EntryFuncs(c, "C25.recheck"), nil))
 	c.Add("C25.pure", "summary", token.NoPos, core.Discharged, fmt.Sprintf("%d API-reachable functions scanned, %d mutator call sites in api/ packages", len(readers), nP))
 }
 
